@@ -1,4 +1,5 @@
 """C13 - Loading a savefile does not depend on the order of its lines (narrow: dependency keys)."""
+import re
 from .. import astlib as A
 from ..facts import AnalysisBroken
 from ..rules import metakeys as MK
@@ -39,7 +40,13 @@ def per_message_state(ctx, u, rule):
                 inside = any(y.get("kind") == "VarDecl" and y.get("id") == vid for y in A.walk(loop))
             if not inside:
                 shared.append("%s (%s)" % (p.get("name"), A.stype(p)))
-    statics = [y.get("name") for y in A.walk(u.body(fn)) if y.get("kind") == "VarDecl" and y.get("storageClass") == "static"]
+    def immutable(qt):
+        t = re.sub(r'(\[[^\]]*\])+\s*$', '', (qt or "").strip()).strip()
+        if "*" in t:
+            return t.endswith("const")
+        return "const" in t.split()
+    statics = [y.get("name") for y in A.walk(u.body(fn)) if y.get("kind") == "VarDecl" and y.get("storageClass") == "static"
+               and not immutable(A.stype(y)) and not y.get("constexpr")]
     ctx.ob(rule, "scan_deps keeps no state across messages", not shared and not statics, site=A.where(fn),
            detail={"mutable_parameters": [p.get("name") for _, p in mut], "shared_across_messages": shared, "static_locals": statics},
            what="scan_deps is handed mutable state that outlives one message (%s): the edges found for a message depend on which messages were scanned before it" % (shared + statics))
@@ -56,11 +63,20 @@ def run(ctx):
     per_message_state(ctx, u, "R13.3")
     fd = u.function("dispatch_printed_messages")
     sides = {"++": [], "--": []}
-    for x in A.walk(u.body(fd)):
-        if x.get("kind") == "UnaryOperator" and x.get("opcode") in ("++", "--"):
-            t = A.strip_casts(A.kids(x)[0])
-            txt = A.src(t)
-            if "n_input_edges" in txt:
+    # the sort may live in dispatch_printed_messages itself or in a helper of this unit that it calls
+    hosts = [fd]
+    for c in A.calls_in(u.body(fd)):
+        n = A.callee_name(c)
+        if n and n != "scan_deps" and n in u.functions:
+            hosts += [h for h in u.functions[n] if u.body(h) is not None and h not in hosts]
+    for host in hosts:
+        for x in A.walk(u.body(host)):
+            if x.get("kind") == "UnaryOperator" and x.get("opcode") in ("++", "--"):
+                t = A.strip_casts(A.kids(x)[0])
+                # the in-degree counter: an element of an integer vector (operator[] on std::vector<size_t>)
+                if not (t.get("kind") == "CXXOperatorCallExpr" and A.kids(t) and "operator[]" in A.src(A.kids(t)[0])
+                        and re.search(r'vector<\s*(std::)?(size_t|unsigned long|unsigned|int)', A.stype(A.kids(t)[1]) or "")):
+                    continue
                 loop = None
                 for a in u.ancestors(x):
                     if a.get("kind") in ("CXXForRangeStmt", "ForStmt", "WhileStmt", "DoStmt"):
